@@ -8,6 +8,9 @@ CONSTANTS
   PATTERN = TRUE
   OM0 = 1
   OMSTEP = 1
+  OMSEQ <- NoSeq
+  VSHIFT = 0
+  MAXFIX = FALSE
   EMITSTEPS = FALSE
 INVARIANT NoBad
 INVARIANT ShapeOK
